@@ -659,8 +659,8 @@ func escCDATA(r *core.Run) int {
 		r.BrokenAnchor("xml.EscapeCDATAVal")
 		return 0
 	}
-	incr := map[int64]int64{}   // byte -> size increment
-	ent := map[int64]string{}   // byte -> entity copied
+	incr := map[int64]int64{} // byte -> size increment
+	ent := map[int64]string{} // byte -> entity copied
 	pos := map[int64]token.Pos{}
 	var bail int64 = -1
 	ast.Inspect(fd.Body, func(n ast.Node) bool {
